@@ -9,6 +9,7 @@ package c09
 
 import (
 	"context"
+	"errors"
 	"fmt"
 	"runtime"
 	"sort"
@@ -989,6 +990,58 @@ func (w *worker) longLived() error {
 	return nil
 }
 
+
+// storeFault: the sector store fails the lookup of one root in the middle of an append batch (with
+// "sector not found" reported as an error, or with an arbitrary error).  The RPC must fail and
+// commit nothing — in particular the root whose lookup failed must not be accepted.
+func (w *worker) storeFault(pos int, notFound, raw bool) error {
+	if err := w.resize(2); err != nil {
+		return err
+	}
+	bad := rhpx.FakeRootBase + 20 + pos // a root the host does not store
+	batch := []int{30, 31, 32}
+	batch = append(batch[:pos], append([]int{bad}, batch[pos:]...)...)
+	c := w.begin(fmt.Sprintf("store-fault-pos%d-notfound%v-raw%v", pos, notFound, raw), []int{30, 31, 32})
+	var ferr error = errors.New("disk unavailable")
+	if notFound {
+		ferr = proto4.ErrSectorNotFound
+	}
+	w.rig.Sec.FailHas(rhpx.RootHash(bad), ferr)
+	c.Op(fmt.Sprintf("sectorerr %d 1", bad), "ok []")
+	before := w.snap()
+	var res rhpx.Result
+	if raw {
+		res = w.s.Append(rhpx.AppendArgs{Cid: w.cid, Prices: w.s.GoodPrices(), Chal: rhpx.Honest, Sectors: batch, Second: rhpx.Honest})
+	} else {
+		res, _ = w.s.CAppend(w.cid, w.s.GoodPrices(), batch)
+	}
+	c.Op(res.Op, res.Impl)
+	if res.Cls == "ok" {
+		c.Oracle("store-failure-committed:append", "an append during which HasSector failed for root %d was committed", bad)
+	}
+	w.check(c, "append", "store-fault", before, res, true, w.cur)
+	for _, id := range w.cur {
+		if id == bad {
+			c.Oracle("unknown-root-accepted:append", "the contract now lists root %d, which the host does not store", bad)
+		}
+	}
+	w.observe(c)
+	// the store recovers: the same batch is served, the unknown root is skipped
+	w.rig.Sec.FailHas(rhpx.RootHash(bad), nil)
+	c.Op(fmt.Sprintf("sectorerr %d 0", bad), "ok []")
+	before = w.snap()
+	res, _ = w.s.CAppend(w.cid, w.s.GoodPrices(), batch)
+	c.Op(res.Op, res.Impl)
+	w.check(c, "append", "client", before, res, res.Cls != "ok", append(append([]int(nil), w.cur...), 30, 31, 32))
+	w.observe(c)
+	if len(w.cur) > 0 {
+		w.listAndReadN(c, 0, uint64(len(w.cur)), true, 2)
+	}
+	c.Nontrivial = true
+	w.add(c, "rpc:append", "fault:store-lookup")
+	return nil
+}
+
 type job func(w *worker) error
 
 // sequences over the alphabet 0..n (n itself is out of range) of length <= maxLen
@@ -1106,6 +1159,15 @@ func Run(r *vh.Run) {
 			for _, v := range variants()[:3] { // abort, drop, sig-garbage
 				n, is, v := n, is, v
 				jobs = append(jobs, func(w *worker) error { return w.faultFree(n, is, v) })
+			}
+		}
+	}
+	// (2c) the sector store fails one lookup in the middle of an append batch
+	for pos := 0; pos <= 3; pos++ {
+		for _, nf := range []bool{true, false} {
+			for _, raw := range []bool{true, false} {
+				pos, nf, raw := pos, nf, raw
+				jobs = append(jobs, func(w *worker) error { return w.storeFault(pos, nf, raw) })
 			}
 		}
 	}
